@@ -22,9 +22,9 @@ Definition wf_op (B : Z) (o : op) : Prop :=
   | OAlloc s | ORealloc s => 0 <= s /\ s * B < two62
   | OEncrypt pt k => smallm pt /\ small k
   | OPtZnxInto p | OPtZnxAssign p | OMulPtZnxInto p | OMulPtZnxAssign p | OMulAccPtZnx p => wf_ptz p
-  | OPtRnxInto m | OPtRnxAssign m | OMulPtRnxInto m | OMulPtRnxAssign m | OMulCstZnxInto m | OMulCstZnxAssign m
+  | OPtRnxInto m | OPtRnxAssign m | OMulPtRnxInto m | OMulPtRnxAssign m
   | OMulAccPtRnx m | OSetMeta m | ODecrypt m => smallm m
-  | OCstRnxInto m _ | OCstRnxAssign m _ | OMulCstRnxInto m _ | OMulCstRnxAssign m _ | OMulAccCstZnx m _ | OMulAccCstRnx m _ => smallm m
+  | OMulCstZnxInto m _ | OMulCstZnxAssign m _ | OCstRnxInto m _ | OCstRnxAssign m _ | OMulCstRnxInto m _ | OMulCstRnxAssign m _ | OMulAccCstZnx m _ | OMulAccCstRnx m _ => smallm m
   | OCstZnxInto l k _ | OCstZnxAssign l k _ => 0 <= l < two62 /\ small k
   | OMulPow2Into b | OMulPow2Assign b | ODivPow2Into b | ODivPow2Assign b | ORescaleInto b | ORescaleAssign b => small b
   | _ => True
@@ -92,8 +92,8 @@ Definition spec_step (B : Z) (o : op) (d a b : ct) : sres :=
   | OSquareAssign => s_mul_ct (maxk B d) dm dm ok
   | OMulPtZnxInto p => s_mul_pt (maxk B d) (cm a) (ld (pm p)) ok
   | OMulPtZnxAssign p => s_mul_pt (maxk B d) dm (ld (pm p)) ok
-  | OMulPtRnxInto prec | OMulCstZnxInto prec => s_f64 (ld prec) (s_mul_pt (maxk B d) (cm a) (ld prec) ok)
-  | OMulPtRnxAssign prec | OMulCstZnxAssign prec => s_f64 (ld prec) (s_mul_pt (maxk B d) dm (ld prec) ok)
+  | OMulPtRnxInto prec | OMulCstZnxInto prec _ => s_f64 (ld prec) (s_mul_pt (maxk B d) (cm a) (ld prec) ok)
+  | OMulPtRnxAssign prec | OMulCstZnxAssign prec _ => s_f64 (ld prec) (s_mul_pt (maxk B d) dm (ld prec) ok)
   | OMulCstRnxInto prec none =>
       if none then s_mul_pt (maxk B d) (cm a) (ld prec) ok else s_f64 (ld prec) (s_mul_pt (maxk B d) (cm a) (ld prec) ok)
   | OMulCstRnxAssign prec none =>
@@ -135,6 +135,8 @@ Definition admissible (B : Z) (o : op) (d a : ct) : Prop :=
   | OCstZnxInto _ k none | OCstZnxAssign _ k none => none = true \/ 1 <= k     (* to_znx_at_k needs one limb *)
   | OCstRnxInto prec none => none = true \/ 1 <= lb (cm a) - offu B d a + ld prec
   | OCstRnxAssign prec none => none = true \/ 1 <= lb (cm d) + ld prec
+  | OMulCstZnxInto prec none | OMulCstZnxAssign prec none | OMulCstRnxInto prec none | OMulCstRnxAssign prec none
+  | OMulAccCstZnx prec none | OMulAccCstRnx prec none => none = true \/ 1 <= eff prec      (* to_znx needs one limb *)
   | _ => True
   end.
 
